@@ -1,3 +1,523 @@
 package main
 
-func (h *H[T]) C19(rc *runCtx) *Violation { return nil }
+import (
+	"sort"
+	"unsafe"
+
+	"pipelined.dev/signal"
+	"verif.local/simrt"
+)
+
+// C19 program: drawn completely before any task starts, so that the same
+// program can be executed under two schedules.
+
+const (
+	roleReader = iota
+	roleWriter
+)
+
+// reader operation kinds
+const (
+	rMeta = iota
+	rSample
+	rSlice
+	rChannel
+	rRead
+	rReadOther
+	rStriped
+	rConv
+	rAppendSrc
+	numReaderOps
+)
+
+var readerSites = [numReaderOps]int{sRdMeta, sRdSample, sRdSlice, sRdChannel, sRdRead, sRdRead, sRdStriped, sRdConv, sRdAppendSrc}
+var readerOpNames = [numReaderOps]string{"meta", "Sample", "Slice+read", "Channel view", "Read[T,T]", "Read[T,float64]", "ReadStriped", "conversion-from", "private.Append(shared)"}
+
+// writer operation kinds
+const (
+	wSet = iota
+	wWrite
+	wStriped
+	wChannel
+	wConv
+	wReadBack
+	wMeta
+	numWriterOps
+)
+
+var writerSites = [numWriterOps]int{sWrSet, sWrWrite, sWrStriped, sWrChannel, sWrConv, sWrRead, sRdMeta}
+var writerOpNames = [numWriterOps]string{"SetSample", "Write", "WriteStriped", "Channel(c).SetSample", "conversion-into", "read back own range", "meta of parent"}
+
+type shareOp struct {
+	kind    int
+	a, b, c uint64
+}
+
+type shareTask struct {
+	role       int
+	start, end int  // frame range inside the shared buffer: a writer's own range, or the reader's read-only window
+	whole      bool // reader works on the shared parent itself (readers-only scenario)
+	ops        []shareOp
+}
+
+type shareProgram struct {
+	c, frames, extraCap int
+	winStart, bigFrames int // shared = big.Slice(winStart, winStart+frames) when window
+	window              bool
+	scenario            int // 0 readers only, 1 writers only, 2 mixed
+	fillSeed            uint64
+	tasks               []shareTask
+}
+
+// shareResult is what one execution of the program produced.
+type shareResult struct {
+	digests  [][]uint64 // per task, digest after each op
+	final    []uint64   // bit patterns of the whole backing buffer afterwards
+	panicked []int      // per task: number of ops that panicked
+	rogue    []any      // per task: panic outside any op
+}
+
+func drawShareProgram(prog *simrt.Stream, b Bounds) *shareProgram {
+	p := &shareProgram{}
+	switch prog.Draw(3) {
+	case 0:
+		p.c = 2
+	case 1:
+		p.c = 1
+	default:
+		p.c = 1 + prog.Draw(8)
+	}
+	maxFrames := 64
+	if b.MaxK > 64 {
+		maxFrames = 512
+	}
+	switch prog.Draw(3) {
+	case 0:
+		p.frames = 8
+	case 1:
+		p.frames = 1 + prog.Draw(16)
+	default:
+		p.frames = 1 + prog.Draw(maxFrames)
+	}
+	if prog.Draw(2) == 1 {
+		p.extraCap = 1 + prog.Draw(8)
+	}
+	if prog.Draw(3) == 2 {
+		p.window = true
+		p.winStart = prog.Draw(5)
+		p.bigFrames = p.winStart + p.frames + p.extraCap + prog.Draw(4)
+	} else {
+		p.bigFrames = p.frames + p.extraCap
+	}
+	p.scenario = prog.Draw(3)
+	p.fillSeed = uint64(prog.Draw(1 << 30))
+	var n int
+	switch prog.Draw(3) {
+	case 0:
+		n = 2
+	case 1:
+		n = 2 + prog.Draw(4)
+	default:
+		n = 2 + prog.Draw(15)
+	}
+	// roles
+	roles := make([]int, n)
+	for i := range roles {
+		switch p.scenario {
+		case 0:
+			roles[i] = roleReader
+		case 1:
+			roles[i] = roleWriter
+		default:
+			roles[i] = prog.Draw(2)
+		}
+	}
+	if p.scenario == 2 { // a mixed run has at least one of each
+		roles[0], roles[1] = roleReader, roleWriter
+	}
+	// Partition [0,frames) into consecutive segments by seeded cut points;
+	// writers get pairwise disjoint segments; in mixed runs readers are
+	// confined to segments no writer owns.
+	nseg := n
+	if p.scenario == 0 {
+		nseg = 1
+	}
+	cuts := make([]int, 0, nseg+1)
+	cuts = append(cuts, 0)
+	for i := 1; i < nseg; i++ {
+		cuts = append(cuts, prog.Draw(p.frames+1))
+	}
+	cuts = append(cuts, p.frames)
+	sort.Ints(cuts)
+	var roSegs [][2]int
+	if p.scenario == 2 {
+		for i := 0; i < n; i++ {
+			if roles[i] == roleReader {
+				roSegs = append(roSegs, [2]int{cuts[i], cuts[i+1]})
+			}
+		}
+	}
+	nOps := 1 + prog.Draw(12)
+	for i := 0; i < n; i++ {
+		t := shareTask{role: roles[i]}
+		switch {
+		case p.scenario == 0:
+			t.whole = prog.Draw(3) != 2
+			t.start, t.end = 0, p.frames
+			if !t.whole {
+				x, y := prog.Draw(p.frames+1), prog.Draw(p.frames+1)
+				if x > y {
+					x, y = y, x
+				}
+				t.start, t.end = x, y
+			}
+		case roles[i] == roleWriter:
+			t.start, t.end = cuts[i], cuts[i+1]
+		default:
+			seg := roSegs[prog.Draw(len(roSegs))] // readers may share a read-only segment
+			t.start, t.end = seg[0], seg[1]
+		}
+		for k := 0; k < nOps; k++ {
+			op := shareOp{a: uint64(prog.Draw(1 << 16)), b: uint64(prog.Draw(1 << 16)), c: uint64(prog.Draw(1 << 16))}
+			if t.role == roleReader {
+				op.kind = prog.Draw(numReaderOps)
+			} else {
+				op.kind = prog.Draw(numWriterOps)
+			}
+			t.ops = append(t.ops, op)
+		}
+		p.tasks = append(p.tasks, t)
+	}
+	return p
+}
+
+// build allocates and fills the shared buffer; everything here happens
+// before the tasks are created.
+func buildShared[T signal.SignalTypes](p *shareProgram) (big, shared *signal.Buffer[T]) {
+	big = signal.Alloc[T](signal.Allocator{Channels: p.c, Length: p.bigFrames, Capacity: p.bigFrames})
+	for i := 0; i < big.Len(); i++ {
+		big.SetSample(i, arb[T](p.fillSeed+uint64(i)*7))
+	}
+	if p.window {
+		shared = big.Slice(p.winStart, p.winStart+p.frames)
+	} else {
+		shared = big.Slice(0, p.frames)
+	}
+	return big, shared
+}
+
+func foldBuffer[T signal.SignalTypes](d *uint64, b *signal.Buffer[T]) {
+	mix64(d, uint64(b.Len()))
+	mix64(d, uint64(b.Cap()))
+	mix64(d, uint64(b.Length()))
+	mix64(d, uint64(b.Capacity()))
+	mix64(d, uint64(b.Channels()))
+	mix64(d, uint64(b.BitDepth()))
+	for i := 0; i < b.Len(); i++ {
+		mix64(d, bitsOf(b.Sample(i)))
+	}
+}
+
+// readerOp executes one read-only entry point on view (the shared parent, or
+// the reader's own read-only window of it) and folds everything observed.
+func (h *H[T]) readerOp(d *uint64, parent, view *signal.Buffer[T], op shareOp) {
+	c := view.Channels()
+	switch op.kind {
+	case rMeta:
+		for _, b := range []*signal.Buffer[T]{parent, view} {
+			mix64(d, uint64(b.Len()))
+			mix64(d, uint64(b.Cap()))
+			mix64(d, uint64(b.Length()))
+			mix64(d, uint64(b.Capacity()))
+			mix64(d, uint64(b.Channels()))
+			mix64(d, uint64(b.BitDepth()))
+			mix64(d, uint64(b.BufferIndex(int(op.a)%c, int(op.b)%64)))
+		}
+	case rSample:
+		if view.Len() == 0 {
+			return
+		}
+		for k := uint64(0); k < 1+op.c%8; k++ {
+			mix64(d, bitsOf(view.Sample(int(op.a+k*op.b)%view.Len())))
+		}
+	case rSlice:
+		x, y := int(op.a)%(view.Length()+1), int(op.b)%(view.Length()+1)
+		if x > y {
+			x, y = y, x
+		}
+		foldBuffer(d, view.Slice(x, y))
+	case rChannel:
+		ch := view.Channel(int(op.a) % c)
+		mix64(d, uint64(ch.Length()))
+		mix64(d, uint64(ch.Capacity()))
+		mix64(d, uint64(ch.Channels()))
+		if view.Length() > 0 {
+			i := int(op.b) % view.Length()
+			mix64(d, uint64(ch.BufferIndex(int(op.a)%c, i)))
+			mix64(d, bitsOf(ch.Sample(i)))
+		}
+	case rRead:
+		dst := make([]T, int(op.a)%(view.Len()+3))
+		mix64(d, uint64(signal.Read(view, dst)))
+		for _, v := range dst {
+			mix64(d, bitsOf(v))
+		}
+	case rReadOther:
+		dst := make([]float64, int(op.a)%(view.Len()+3))
+		mix64(d, uint64(signal.Read(view, dst)))
+		for _, v := range dst {
+			mix64(d, bitsOf(v))
+		}
+	case rStriped:
+		dst := make([][]T, c)
+		for chn := range dst {
+			n := int(op.a+op.b*uint64(chn)) % (view.Length() + 3)
+			if n == view.Length()+2 {
+				continue
+			}
+			dst[chn] = make([]T, n)
+		}
+		mix64(d, uint64(signal.ReadStriped(view, dst)))
+		for _, s := range dst {
+			for _, v := range s {
+				mix64(d, bitsOf(v))
+			}
+		}
+	case rConv:
+		cv := h.convSrc[int(op.a)%len(h.convSrc)]
+		cv.f(view, int(op.b)%(view.Length()+2), d)
+	case rAppendSrc:
+		pl := int(op.a) % 3
+		priv := signal.Alloc[T](signal.Allocator{Channels: c, Length: pl, Capacity: pl + int(op.b)%(view.Length()+3)})
+		priv.Append(view)
+		foldBuffer(d, priv)
+	}
+}
+
+// writerOp executes one operation confined to own (the writer's frame range).
+func (h *H[T]) writerOp(d *uint64, parent, own *signal.Buffer[T], op shareOp) {
+	c := own.Channels()
+	switch op.kind {
+	case wSet:
+		if own.Len() == 0 {
+			return
+		}
+		own.SetSample(int(op.a)%own.Len(), arb[T](op.b))
+	case wWrite:
+		vals := make([]T, int(op.a)%(own.Len()+3))
+		for i := range vals {
+			vals[i] = arb[T](op.b + uint64(i))
+		}
+		mix64(d, uint64(signal.Write(vals, own)))
+	case wStriped:
+		src := make([][]T, c)
+		for chn := range src {
+			n := int(op.a+op.b*uint64(chn)) % (own.Length() + 3)
+			if n == own.Length()+2 {
+				continue
+			}
+			src[chn] = make([]T, n)
+			for i := range src[chn] {
+				src[chn][i] = arb[T](op.c + uint64(chn*131+i))
+			}
+		}
+		mix64(d, uint64(signal.WriteStriped(src, own)))
+	case wChannel:
+		if own.Length() == 0 {
+			return
+		}
+		own.Channel(int(op.a)%c).SetSample(int(op.b)%own.Length(), arb[T](op.c))
+	case wConv:
+		cv := h.convDst[int(op.a)%len(h.convDst)]
+		mix64(d, uint64(cv.f(own, int(op.b)%(own.Length()+2), op.c)))
+	case wReadBack:
+		for i := 0; i < own.Len(); i++ {
+			mix64(d, bitsOf(own.Sample(i)))
+		}
+		mix64(d, uint64(own.Length()))
+	case wMeta:
+		// header reads of the shared parent while others work
+		mix64(d, uint64(parent.Len()))
+		mix64(d, uint64(parent.Length()))
+		mix64(d, uint64(parent.Capacity()))
+		mix64(d, uint64(parent.Channels()))
+	}
+}
+
+// execShare runs the program once under sim's strategy.
+func (h *H[T]) execShare(p *shareProgram, sim *simrt.Sim, label string) *shareResult {
+	big, shared := buildShared[T](p)
+	n := len(p.tasks)
+	res := &shareResult{digests: make([][]uint64, n), panicked: make([]int, n), rogue: make([]any, n)}
+	est := 0
+	for ti := range p.tasks {
+		ti := ti
+		pt := &p.tasks[ti]
+		est += len(pt.ops) + 2
+		name := "reader"
+		if pt.role == roleWriter {
+			name = "writer"
+		}
+		sim.Go(name, func(t *simrt.Task) {
+			var d uint64 = 14695981039346656037
+			digs := make([]uint64, 0, len(pt.ops))
+			npanic := 0
+			defer func() { res.digests[ti], res.panicked[ti] = digs, npanic }()
+			// Every task obtains its own view itself: a concurrent read of the
+			// shared parent's header.
+			view := shared
+			if !pt.whole {
+				t.Yield(sWrSlice)
+				view = shared.Slice(pt.start, pt.end)
+			}
+			for k := range pt.ops {
+				op := pt.ops[k]
+				if pt.role == roleReader {
+					t.Yield(readerSites[op.kind])
+				} else {
+					t.Yield(writerSites[op.kind])
+				}
+				func() {
+					defer func() {
+						if r := recover(); r != nil {
+							// A panic is part of the observed result: it must
+							// occur in the sequential execution too.
+							mix64(&d, 0xdeadbeef)
+							npanic++
+							sim.Tracef("  %s task %d op %d PANIC(%v)", label, ti, k, r)
+						}
+					}()
+					if pt.role == roleReader {
+						h.readerOp(&d, shared, view, op)
+					} else {
+						h.writerOp(&d, shared, view, op)
+					}
+				}()
+				digs = append(digs, d)
+				if pt.role == roleReader {
+					sim.Tracef("  %s task %d op %d: reader %s on frames [%d,%d) -> digest %#x", label, ti, k, readerOpNames[op.kind], pt.start, pt.end, d)
+				} else {
+					sim.Tracef("  %s task %d op %d: writer %s on frames [%d,%d) -> digest %#x", label, ti, k, writerOpNames[op.kind], pt.start, pt.end, d)
+				}
+			}
+		})
+	}
+	simrt.Begin(sim)
+	sim.Run(est)
+	for ti, t := range sim.Tasks() {
+		res.rogue[ti] = t.PanicVal
+	}
+	res.final = snapshotFull(big)
+	return res
+}
+
+// C19: R readers and W writers over one shared buffer; the same program under
+// the sequential reference schedule and under the drawn schedule.
+func (h *H[T]) C19(rc *runCtx) *Violation {
+	prog, sim := rc.prog, rc.sim
+	p := drawShareProgram(prog, rc.b)
+	sim.Strategy = 1 + sim.Sched.Draw(simrt.NumStrategies-1)
+	sim.StickyP = []int{2, 4, 8, 16}[sim.Sched.Draw(4)]
+	nr, nw := 0, 0
+	for _, t := range p.tasks {
+		if t.role == roleReader {
+			nr++
+		} else {
+			nw++
+		}
+	}
+	scen := []string{"readers-only", "writers-only", "mixed"}[p.scenario]
+	rc.tally("scenario", scen)
+	rc.tally("strategy", simrt.StrategyNames[sim.Strategy])
+	rc.tally("tasks", spA("%d", len(p.tasks)))
+	rc.cfg = spA("C=%d frames=%d extracap=%d window=%v(start %d of %d) scenario=%s R=%d W=%d ops/task=%d strategy=%s stickyP=%d",
+		p.c, p.frames, p.extraCap, p.window, p.winStart, p.bigFrames, scen, nr, nw, len(p.tasks[0].ops), simrt.StrategyNames[sim.Strategy], sim.StickyP)
+	sim.Tracef("config: T=%s %s", h.name, rc.cfg)
+	for ti, t := range p.tasks {
+		role := "reader"
+		if t.role == roleWriter {
+			role = "writer"
+		}
+		sim.Tracef("  task %d: %s frames [%d,%d) whole=%v", ti, role, t.start, t.end, t.whole)
+	}
+
+	// Reference: the same real code, run task after task.
+	seqSim := simrt.NewSim(simrt.NewReplayStream(nil))
+	seqSim.Strategy = simrt.StratSequential
+	seqSim.MaxSteps = sim.MaxSteps
+	seqSim.SiteNames = sim.SiteNames
+	seq := h.execShare(p, seqSim, "seq")
+	conc := h.execShare(p, sim, "conc")
+
+	for _, t := range p.tasks {
+		rc.ops += 2 * len(t.ops)
+	}
+	rc.nontrivial = len(p.tasks) >= 2 && sim.Counters[simrt.CtSwitches] > 0
+	if p.window {
+		rc.probes[pSharedIsWindow]++
+	}
+	var sz T
+	esz := int(unsafe.Sizeof(sz))
+	if esz < 8 && len(p.tasks) >= 2 {
+		for _, t := range p.tasks {
+			if t.role == roleWriter && t.end > t.start && ((p.winStart+t.start)*p.c*esz)%8 != 0 {
+				rc.probes[pSubWordNeighbours]++
+				break
+			}
+		}
+	}
+	for i := 0; i < numSites; i++ {
+		if sim.SwitchPairs[i][i] {
+			rc.probes[pSameEntryAdjacent]++
+			break
+		}
+	}
+	if p.scenario == 2 {
+	outer:
+		for i := sRdMeta; i <= sRdAppendSrc; i++ {
+			for j := sWrSlice; j <= sWrRead; j++ {
+				if sim.SwitchPairs[i][j] || sim.SwitchPairs[j][i] {
+					rc.probes[pReaderWriterAdjacent]++
+					break outer
+				}
+			}
+		}
+	}
+	for ti := range p.tasks {
+		if seq.panicked[ti] > 0 {
+			rc.probes[pSeqPanicMatched]++
+			break
+		}
+	}
+
+	// Oracle 3 / 2: same panics, same per-task results, same final contents.
+	for ti := range p.tasks {
+		if conc.rogue[ti] != nil && seq.rogue[ti] == nil {
+			return violf("task-panic", "task %d panicked outside any operation in the concurrent execution only: %v", ti, conc.rogue[ti])
+		}
+		a, b := seq.digests[ti], conc.digests[ti]
+		if len(a) != len(b) {
+			return violf("differs-from-sequential", "task %d completed %d operations sequentially but %d concurrently", ti, len(a), len(b))
+		}
+		for k := range a {
+			if a[k] != b[k] {
+				pt := p.tasks[ti]
+				name := ""
+				if pt.role == roleReader {
+					name = "reader " + readerOpNames[pt.ops[k].kind]
+				} else {
+					name = "writer " + writerOpNames[pt.ops[k].kind]
+				}
+				return violf("differs-from-sequential",
+					"task %d operation %d (%s on frames [%d,%d)) observed digest %#x in the concurrent execution, %#x in the sequential execution of the same program",
+					ti, k, name, pt.start, pt.end, b[k], a[k])
+			}
+		}
+	}
+	if at, ok := sameSnap(seq.final, conc.final); !ok {
+		return violf("differs-from-sequential",
+			"final contents of the shared storage differ from the sequential execution at interleaved position %d of the backing buffer (%d channels; shared window starts at frame %d)",
+			at, p.c, p.winStart)
+	}
+	return nil
+}
